@@ -855,4 +855,58 @@ theorem extract_selects_output_fresh (decls : List Comp) (next : CId) (p : List 
   intro a ha himg
   exact redirect_fresh_image next _ out a (hsel a ha) hout (by simpa [anchorSplit] using himg)
 
+
+/-! ### the atomic part holds exactly one Select (what `translate_select_pipeline`'s `exactly_one().unwrap()` relies on) -/
+
+def isSelect : Tr → Bool
+  | .select _ => true
+  | _ => false
+
+theorem scanStep_kept (decls : List Comp) (s s' x : Scan) (t : Tr) (h : scanStep decls s t = (some s', x))
+    (hk : ∀ u ∈ s.kept, isSelect u = false) : ∀ u ∈ s'.kept, isSelect u = false := by
+  unfold scanStep at h
+  split at h
+  · cases h
+  · cases t <;> simp only [] at h
+    all_goals
+      first
+      | (split at h
+         all_goals first
+           | (cases h; intro u hu; first | exact hk u hu | (rcases List.mem_cons.mp hu with rfl | hu; rfl; exact hk u hu))
+           | (simp only [Prod.mk.injEq, Option.some.injEq] at h; obtain ⟨rfl, _⟩ := h; intro u hu;
+              first | exact hk u hu | (rcases List.mem_cons.mp hu with rfl | hu; rfl; exact hk u hu))
+           | cases h)
+      | (simp only [Prod.mk.injEq, Option.some.injEq] at h; obtain ⟨rfl, _⟩ := h; intro u hu;
+         first | exact hk u hu | (rcases List.mem_cons.mp hu with rfl | hu; rfl; exact hk u hu))
+
+theorem scanRev_kept (decls : List Comp) (rev : List Tr) (s : Scan) (hk : ∀ u ∈ s.kept, isSelect u = false) :
+    ∀ u ∈ (scanRev decls rev s).1.kept, isSelect u = false := by
+  induction rev generalizing s with
+  | nil => exact hk
+  | cons t rest ih =>
+    unfold scanRev
+    cases hs : scanStep decls s t with
+    | mk o x =>
+      cases o with
+      | some s' => simp only []; exact ih s' (scanStep_kept decls s s' x t hs hk)
+      | none =>
+        simp only []
+        -- the scan stops: the state left behind keeps `kept`
+        have : x.kept = s.kept := by
+          unfold scanStep at hs
+          split at hs
+          · cases hs; rfl
+          · cases t <;> simp only [] at hs
+            all_goals first
+              | (split at hs <;> first | (cases hs; rfl) | (simp only [Prod.mk.injEq] at hs; obtain ⟨h1, h2⟩ := hs; first | cases h1 | (subst h2; rfl)))
+              | (simp only [Prod.mk.injEq] at hs; obtain ⟨h1, h2⟩ := hs; first | cases h1 | (subst h2; rfl))
+        intro u hu
+        rw [this] at hu
+        exact hk u hu
+
+theorem splitOffBack_kept_no_select (decls : List Comp) (p : List Tr) (out : List CId) :
+    ∀ u ∈ (splitOffBack decls p out).kept, isSelect u = false := by
+  unfold splitOffBack
+  exact scanRev_kept decls p.reverse _ (by intro u hu; simp at hu)
+
 end Lemmas.Anchor
